@@ -27,7 +27,9 @@ EXPLANATION = (
     ' '
     'R-C10.9 no mutation constructor replaces a falsy argument by a non-empty default (`param or [...]`): an explicitly empty mark_applied is honoured.'
     ' '
-    'R-C10.10 the full migration plan reaches execute_tasks without a truthiness collapse (`x or None`) while the consumer tests `is not None`.')
+    'R-C10.10 the full migration plan reaches execute_tasks without a truthiness collapse (`x or None`) while the consumer tests `is not None`.'
+    ' '
+    'R-C10.11 get_app_pending_mutations computes its model filter from the signatures, never from AppSignature.diff() (blanked for apps moving to migrations).')
 NOT_DECIDED = (
     'Which migrations are recorded/executed for every start state (depends '
     'on Django\'s loader/executor and on the database).')
@@ -642,7 +644,39 @@ def r10_empty_plan_is_not_no_plan(ctx):
     ctx.floor('producers of the full migration plan entry', n, 1)
 
 
+def r11_pending_filter_reads_signatures_not_diff(ctx):
+    """get_app_pending_mutations() keeps a mutation of an evolution file only
+    if its model differs between the stored and the target signature.
+    AppSignature.diff() deliberately blanks its 'changed'/'deleted' results
+    when the target's upgrade method is migrations - which is exactly the
+    case for an app being handed over.  The filter must therefore be computed
+    from the model signatures themselves; taking it from diff() silently
+    drops the pending DeleteModel / field mutations that have to run before
+    the hand-over."""
+    ctx.rule('R-C10.11')
+    p = ctx.program
+    f = p.func('utils.evolutions', 'get_app_pending_mutations')
+    diffs = [c for c in walk_no_nested(f.node, include_lambda=True)
+             if isinstance(c, ast.Call) and call_name(c) == 'diff']
+    loops = [n for n in ast.walk(f.node) if isinstance(n, ast.comprehension)
+             and 'model_sigs' in unparse(n.iter)]
+    ctx.counts['R-C10.11 iterations over model signatures in the pending '
+               'filter'] = len(loops)
+    if diffs:
+        ctx.finding(f, diffs[0], 'get_app_pending_mutations derives the '
+                    'changed/deleted models from %s: for an app whose target '
+                    'upgrade method is migrations that result is always '
+                    'empty, so its pending evolutions for deleted models '
+                    'are skipped (and still recorded as applied)' %
+                    ' '.join(unparse(diffs[0]).split()),
+                    key='pending-filter-from-diff')
+    else:
+        ctx.ok(f, 'the pending-mutation filter is computed from the model '
+               'signatures')
+
+
 def run(ctx):
+    r11_pending_filter_reads_signatures_not_diff(ctx)
     r10_empty_plan_is_not_no_plan(ctx)
     r9_explicit_empty_honoured(ctx)
     r8_batch_simulation_unconditional(ctx)
